@@ -7,7 +7,8 @@ HOOKS = {
     "baseline_off_cmd": BASELINE_OFF,
     "source_commits": ["verif hook: expose the go/build context configured by goCtx (build/verif_hooks_c18.go)",
                        "verif hook: expose encodeString (compiler/verif_hooks_c14.go)",
-                       "verif hook: expose the overlay augmentation entry points (build/verif_hooks_c12.go)"],
+                       "verif hook: expose the overlay augmentation entry points (build/verif_hooks_c12.go)",
+                       "verif hook: expose sourcemapx hints/filter and funcContext output plumbing (compiler/verif_hooks_c19.go)"],
     "add_only": True,
 }
 
@@ -23,6 +24,40 @@ NOTES = ("Every check: python3 run.py Cxx --tier quick|thorough. Lean theorems a
 NOT_APPLICABLE = {}
 
 CHECKS = {
+    "C06": {
+        "text": "Lean models of the JS integer fragment, the {$high,$low} constructor, $mul64/$div64/shift helpers and the per-(type, operator) "
+                "emitted schemes; proved equal to the BitVec specification for + - * / % unary minus, comparisons and all 81 integer "
+                "conversions for all operand values (partial exactly at the recorded defect sets, each with a proved counterexample), "
+                "canonical-representative and exact-double invariants, mul64 and the 64-bit add/sub/neg. Tied to the real prelude helpers under "
+                "Node (boundary grid x all shift counts) and to compiled table programs (exhaustive for 8-bit types in the thorough tier) "
+                "against the Lean spec and native Go.",
+        "note": "Not proved (stated as Props, covered by differential runs only): & | ^ &^ and shift schemes, 64-bit shifts, $div64; float and "
+                "complex arithmetic only against native Go (IEEE rounding delegated to the engine). 10 known findings (unary minus MIN/-0, "
+                "% -0, int8/16 MIN/-1, >> constant >= 32, negative shift count, - -a, float->64-bit carry, $divComplex x2).",
+        "technique": "Lean 4 proof (schemes = BitVec spec, unbounded) + three-way differential correspondence (real prelude / compiled programs / native Go)",
+    },
+    "C15": {
+        "text": "Lean theorems: keyFor (transcribed per kind, incl. $floatKey state and $/\\ escaping) is injective exactly up to Go == for every key "
+                "type, value and state under explicit hypotheses excluding the three recorded collisions (each with a proved counterexample); "
+                "join/escape/decimal injectivity at full strength; every history of store/overwrite/delete/index/comma-ok/len/literal refines an "
+                "abstract map; the emitted range loop visits every surviving entry exactly once and never a deleted one, for every loop body. "
+                "Tied to the real keyFor functions under Node on generated typed key pairs (depth 3, adversarial strings, equally named types) "
+                "and to compiled map-history programs against the model and native Go.",
+        "note": "Modelled, not verified: Number::toString injectivity on arbitrary doubles; blank struct fields; the compiled == (C06/C09). "
+                "4 known findings (complex NaN, float-array NaN, interface type-string, named pointer conversion).",
+        "technique": "Lean 4 proof (structural induction on key types, refinement, loop invariant) + differential correspondence (Node prelude, compiled programs, native Go)",
+    },
+    "C19": {
+        "text": "Lean theorems over a transcription of internal/sourcemapx (hint wire format, Filter.Write) and of funcContext's pending-position "
+                "plumbing: for all streams of code and hints and all admissible chunkings the bytes written are exactly the code bytes, each "
+                "mapping is at the exact output position of its hint, the result is chunking-independent, hint round trip, payload bytes never "
+                "start a hint; byte vs UTF-16 columns agree under AsciiBeforeHints (checked on every emitted file). Tied to the real "
+                "Hint/Filter/WriteJS/funcContext through a verif hook, and to generated programs built plain and minified with maps: no hint "
+                "bytes left, same code with and without map, mappings in range, statement starts, Node stack frames resolved through the map.",
+        "note": "Not modelled: gob payload encoding, token.FileSet, esbuild, where the translator places positions (program tie only). "
+                "Known findings: JS first-line column not shifted, if-statements / switch tags / func-literal calls without position, numberic.js.",
+        "technique": "Lean 4 proof (induction over item lists and chunkings) + differential correspondence through a verif hook + compiled programs with decoded source maps",
+    },
     "C12": {
         "text": "Lean theorems over a transcription of build.go's augmentOverlayFile/augmentOriginalFile/augmentOriginalImports/"
                 "pruneImports/finalizeRemovals: for all file lists the merged declarations (names with provenance, signatures, var "
